@@ -41,4 +41,37 @@ theorem wrap_digest_field (H : List UInt8 → List UInt8) (hLen : ∀ x, (H x).l
   have : wrap H d = (be64 0 ++ be64 d.length) ++ (H d ++ d) := by simp [wrap]
   rw [this, List.drop_left' (by simp [be64_length]), List.take_left' (hLen d)]
 
+/-! ### single-bit flips -/
+
+theorem bitMask_ne_zero : ∀ j : Fin 8, bitMask j ≠ 0 := by decide
+
+theorem xor_mask_ne (x m : UInt8) (hm : m ≠ 0) : x ^^^ m ≠ x := by
+  intro h
+  apply hm
+  have : x ^^^ (x ^^^ m) = x ^^^ x := by rw [h]
+  rw [← UInt8.xor_assoc, UInt8.xor_self, UInt8.zero_xor] at this
+  exact this
+
+theorem flipBit_length (b : List UInt8) (i : Nat) : (flipBit b i).length = b.length := by simp [flipBit]
+
+/-- Flipping a bit inside the file changes the file. -/
+theorem flipBit_ne (b : List UInt8) (i : Nat) (hi : i < 8 * b.length) : flipBit b i ≠ b := by
+  intro h
+  have hk : i / 8 < b.length := by omega
+  have h1 : (flipBit b i)[i / 8]? = b[i / 8]? := by rw [h]
+  unfold flipBit at h1
+  rw [List.getElem?_set_self hk, List.getElem?_eq_getElem hk, List.getD_eq_getElem?_getD, List.getElem?_eq_getElem hk] at h1
+  simp only [Option.getD_some, Option.some.injEq] at h1
+  exact xor_mask_ne _ _ (bitMask_ne_zero _) h1
+
+/-- A flip in the first 48 bytes leaves the payload bytes alone. -/
+theorem flipBit_drop48 (b : List UInt8) (i : Nat) (hi : i < 384) : (flipBit b i).drop 48 = b.drop 48 := by
+  unfold flipBit
+  exact List.drop_set_of_lt (by omega)
+
+/-- A flip behind the first 48 bytes leaves the header alone. -/
+theorem flipBit_take48 (b : List UInt8) (i : Nat) (hi : 384 ≤ i) : (flipBit b i).take 48 = b.take 48 := by
+  unfold flipBit
+  exact List.take_set_of_le (by omega)
+
 end LM.Envelope
